@@ -362,4 +362,28 @@ REGISTRY = {
                     "deep / wide trees", "PRECOMPUTED_HASHES == real SHA-256 unless c17t_precomputed_table_real_sha finishes"],
         "assumptions": ["PRECOMPUTED_HASHES[i] == SHA-256(0x01 || i) (24 constants)"],
     },
+    "C06": {
+        "level_text": "Bounded proof (Kani/CBMC), relational, of the strict-subset half: the real parse_args runs twice on the same symbolic "
+                      "argument list - once with an arbitrary subset of {NO_UNKNOWN_CONDS, STRICT_ARGS_COUNT, LIMIT_SPENDS} added to "
+                      "arbitrary other flags, once with those three cleared - and 'accepted strictly => accepted leniently with the "
+                      "identical decoded condition' is asserted, for representatives of every argument-shape group "
+                      "(hash, message, key+message, integer 4/8 bytes, CREATE_COIN with list and atom memos, SOFTFORK, "
+                      "ASSERT_EPHEMERAL, REMARK, a 2-byte opcode).",
+        "level_note": "Only the decoding step is relational here; the unknown-opcode path of parse_conditions under NO_UNKNOWN_CONDS is in "
+                      "C04 (arm_cost_unknown_opcode_*). The ORDER half of the property (permuting spends / conditions never changes "
+                      "the verdict) is outside: it needs two-condition runs of parse_conditions per pair of arms and was not built.",
+        "quick": ["c06_"],
+        "thorough": [],
+        "min_quick": 14,
+        "min_thorough": 14,
+        "timeout_quick": 1500,
+        "timeout_thorough": 1500,
+        "functions": ["chia_consensus::conditions::parse_args (run twice per query)"],
+        "bounds": {"argument lists": "0..3 arguments, nil / non-nil terminator, menus as in C01", "flags": "both flag words symbolic",
+                   "opcodes": "61, 70, 76, 1, 0x1234, 62, 50, 49, 52, 82, 85, 90, 51"},
+        "stubs": [S1, S2],
+        "outside": ["order-independence (commutation of arms, permutation of spends)", "LIMIT_SPENDS counting in parse_spends",
+                    "the opcodes not listed (same code shape as their group representative)"],
+        "assumptions": [],
+    },
 }
